@@ -192,6 +192,10 @@ class FlatColumn:
                 if self.length is None:
                     self.length = _length
 
+        # map literal element types to OrsoTypes (to_dict and to_json write the member's value)
+        if self.element_type is not None and self.element_type.__class__ is not OrsoTypes:
+            self.element_type = OrsoTypes.from_name(self.element_type)[0]
+
         # map literals to ColumnDisposition (to_dict and to_json write the member's value)
         if self.disposition is not None and self.disposition.__class__ is not ColumnDisposition:
             self.disposition = ColumnDisposition(self.disposition)
